@@ -14,10 +14,10 @@ inline const char *clsName(int c)
     static const char *N[] = {"null", "never-added", "owner-destroyed", "index-one-past-end", "index-SIZE_MAX", "unknown-name", "empty-name", "no-argument"};
     return N[c];
 }
-enum Recv { FRESH, POPULATED, OWNER_GONE, NRECV };
+enum Recv { FRESH, POPULATED, OWNER_GONE, PARTNER_GONE, NRECV };
 inline const char *recvName(int r)
 {
-    static const char *N[] = {"fresh", "populated", "owner-destroyed"};
+    static const char *N[] = {"fresh", "populated", "owner-destroyed", "equivalent-variable-destroyed"};
     return N[r];
 }
 enum Role { TARGET, PAYLOAD, QUERY };
@@ -31,6 +31,7 @@ constexpr unsigned M_IDX = (1u << PAST_END) | (1u << IDX_MAX);
 constexpr unsigned M_NAME = (1u << UNKNOWN_NAME) | (1u << EMPTY_NAME);
 constexpr unsigned M_NONE = 1u << NONE;
 constexpr unsigned R_ALL = 7, R_FP = 3, R_F = 1, R_P = 2;
+constexpr unsigned R_VAR = 15; // variables additionally: populated, then the equivalent variable was destroyed (an expired weak entry remains)
 
 struct Out
 {
@@ -191,6 +192,13 @@ struct Fix
         recv = rv;
         buildMain();
         buildDonors();
+        if (rv == PARTNER_GONE) {
+            if (rk != RK_VAR) return false;
+            rV = a;
+            c2->removeVariable(x); // a <-> x were equivalent; x is destroyed without any equivalence call on a
+            x.reset();
+            return true;
+        }
         switch (rk) {
         case RK_MODEL:
             if (rv == OWNER_GONE) return false;
